@@ -242,6 +242,10 @@ func (s *sys) key(sn snap) string {
 	sort.Strings(acted)
 	fmt.Fprintf(&sb, "SM %v %d/%d acted=%v c=%v n=%v j=%v/%d stall=%v/%v down=%v\n", s.sm.entered, s.sm.h, s.sm.r, acted, s.sm.sawCommit, s.sm.sawNilAdv, s.sm.sawJump, s.sm.jumpTo,
 		s.stallG, s.stallS, !s.alive())
+	if mapDesc {
+		// The iteration order of the mirror's maps is part of the state: it decides the future.
+		sb.WriteString("maps-descending\n")
+	}
 	if s.stallG || s.stallS {
 		// Pending outputs cannot be observed without consuming them: never merge stalled states.
 		fmt.Fprintf(&sb, "stalled-at-step %d\n", s.step)
